@@ -110,11 +110,18 @@ def gen_donor(seed, tier, donor):
     base = DN.base_scenario(donor, seed, tier)
     world = base["world"]
     rf = R.sub(seed, "faults")
+    extra_faults = []
+    if any(m.get("kind") == "gmx2" for m in world["markets"]) and world.get("interval", "1min") == "1min" and R.sub(seed, "gm_resampled").random() < 0.3:
+        # a GM market on coarser bars: today that run is refused before the first bar (GmxV2Market._resample calls a pandas
+        # API that does not exist) - refused or not, the frame the caller handed over stays the caller's
+        world["interval"] = R.sub(seed, "gm_interval").choice(["2min", "5min", "15min"])
+        world["allow_gmx2_resample"] = True
+        extra_faults.append({"kind": "gm_market_on_resampled_bars"})
     times = DN.bar_times(world)
     nb = len(times)
     n = int(world["n"])
     k = DN.interval_minutes(world)
-    sc = {"property": ID, "seed": seed, "world": world, "program": base["program"], "faults": [{"kind": "donor:" + donor}], "donor": donor}
+    sc = {"property": ID, "seed": seed, "world": world, "program": base["program"], "faults": [{"kind": "donor:" + donor}] + extra_faults, "donor": donor}
     # an instrument that drops out of the hourly snapshot for one hour of its life and is back in the next ("data may be
     # missing due to unstable collect server"): whatever a held position is worth in that hour must not come from later hours
     rm = R.sub(seed, "missing_mid_life")
